@@ -6,6 +6,12 @@ not_applicable with the reason given in UNCLAIMED (or a generic one).  Validates
 import glob, json, os, re, subprocess, sys
 V = os.path.dirname(os.path.dirname(os.path.abspath(__file__)))
 UNCLAIMED = {}
+TECH = {
+ "C02": "Coq proof (symbolic execution of the Gallina model of the generic parser on rendered token lists, for all datetimes per template) + decision functions regenerated from the source AST every run and proved equal to the hand model + extraction-based differential correspondence against an independent renderer/expected-value spec",
+ "C14": "Coq proof (kind analysis of every exception the Gallina model of parse() can raise, structural termination, lexer shape invariant) + decision functions regenerated from the source AST every run and proved equal to the hand model + extraction-based differential correspondence with a per-call watchdog",
+ "C15": "Coq proof (refinement of default fill-in and the time-zone decision table to executable specs, fuzzy/strict simulation) + decision functions regenerated from the source AST every run and proved equal to the hand model + extraction-based differential correspondence",
+ "C13": "Coq proof (string-level model of __str__/rrulestr, round trip and spelling invariance by induction over token lists, bridge to the C01 constructor model) + every method of _rrulestr regenerated from the source AST every run and proved equal to the hand model + extraction-based differential correspondence",
+}
 ENGINE = "coq-proof+correspondence"
 
 
@@ -44,12 +50,17 @@ def main():
             e["thorough_cmd"] = "./check %s thorough" % i
             e["replay_cmd_template"] = "./check %s --replay {path}" % i
             e["level_claimed"]["category"] = "proof"
+            e["level_claimed"]["design_ref"] = "DESIGN.md section 11.2 (as built) and section 6 (plan), %s" % i
+            if len(e.get("technique", "")) < 40:
+                e["technique"] = TECH.get(i, e.get("technique", ""))
             checks.append(e)
         else:
             na.append({"property_id": i, "reason": UNCLAIMED.get(i, "check not yet sound/complete in this round; not claimed")})
     old["checks"] = checks
     old["not_applicable"] = na
     old["engines"][0]["serves_properties"] = [c["property_id"] for c in checks]
+    old["notes"] = ("See DESIGN.md (section 11 = as built; section 10 = corrections of the machinery; generated tables of "
+                    "findings, fixes and seeded changes in 11.4), known_findings.json, notes/<area>.md and notes/audit/.")
     out = json.dumps(old, indent=1) + "\n"
     open(os.path.join(V, "MANIFEST.json"), "w").write(out)
     r = subprocess.run(["python3-vt", "-c", "import json,jsonschema;jsonschema.validate(json.load(open('%s/MANIFEST.json')),json.load(open('/root/.vp/MANIFEST.schema.json')));print('manifest valid, %d checks, %d not_applicable')" % (V, len(checks), len(na))])
